@@ -13,11 +13,15 @@
    (4) STEP VALUE: a step (any sequence of stages, each with its own propagators, parity and SVD answers) applies the ORDERED
    PRODUCT of the stage operators to the train (C10_step_value; the shape invariants that let the stages be chained are
    C10_stage_shape).
+   (5) NORM: when every local propagator met by the stages is unitary on the index pair (resp. single site) it acts on
+   (skew-Hermitian generators), every stage operator and hence the ordered product of the step is an isometry, and the
+   step preserves sum |entry|^2 of the train (C10_step_norm; no truncation: SVD value conjunct).
    PARTIAL: the global orders 1, 2, 4, >= 6 (BCH / composition theory) are covered by model + oracle-tape
-   correspondence + side check (dense expm products, observed orders, norm preservation). *)
+   correspondence + side check (dense expm products, observed orders); unitarity of expm of a skew-Hermitian matrix is
+   a hypothesis on the oracle (checked numerically by the side check). *)
 From Coq Require Import Reals QArith ZArith List Lia Arith.
 Import ListNotations.
-Require Import Ring Sums Matrix Core Chain Sweep SweepProof Splitting SplitProof StageProof StepProof.
+Require Import Ring Sums Matrix Core Chain Sweep SweepProof Splitting SplitProof StageProof StepProof UnitaryStep.
 Require Import SkTT.Gen.SplittingCoeffs SkTT.Proofs.SplitCoeffProof.
 
 Theorem C10_pair_update (R : cring) idx (a : svd_ans R) (K : M R) (c c1 : core R) al x1 x2 b :
@@ -53,6 +57,16 @@ Theorem C10_step_value (R : cring) thr maxr fuel (sts : list (@stage_desc R)) (c
   msum (rows cs) (fun ys => (Wstep fuel sts (rows cs) xs ys * chain cs ys (StageProof.zeros (length cs)) a b)%cr).
 Proof. exact (step_value thr maxr fuel sts cs xs a b fin). Qed.
 Print Assumptions C10_step_value.
+
+(* a step with unitary local propagators preserves the 2-norm of the train *)
+Theorem C10_step_norm (R : cring) thr maxr fuel (sts : list (@stage_desc R)) (cs : list (core R)) :
+  (length cs < fuel)%nat -> step_hyp thr maxr fuel sts cs -> linked cs 1%nat -> rl_of cs 1%nat = 1%nat ->
+  Forall (fun st : @stage_desc R => stage_unitary_hyp (fst (fst st)) (snd (fst st)) fuel 0 (rows cs)) sts ->
+  msum (rows cs) (fun xs => (cconj R (chain (run_step thr maxr fuel sts cs) xs (StageProof.zeros (length cs)) 0%nat 0%nat) *
+                            chain (run_step thr maxr fuel sts cs) xs (StageProof.zeros (length cs)) 0%nat 0%nat)%cr) =
+  msum (rows cs) (fun ys => (cconj R (chain cs ys (StageProof.zeros (length cs)) 0%nat 0%nat) * chain cs ys (StageProof.zeros (length cs)) 0%nat 0%nat)%cr).
+Proof. exact (step_norm_local thr maxr fuel sts cs). Qed.
+Print Assumptions C10_step_norm.
 
 (* non-vacuity: two sites (dimensions 1 and 2), an even stage with K = [[1,2],[3,4]] whose SVD answer is the trivial exact one
    (U = the matrix, s = 1, V = I), followed by an odd stage (last site alone, K' = [[0,1],[1,0]]); the hypotheses hold and the
